@@ -281,7 +281,7 @@ theorem normLine_renderLineS (l : Line) (ms : MarkerStyle) (ok : (LooseOk O) l) 
         simp only [List.mem_append, not_or]
         exact ⟨renderHint_noHash h1 (hlab h1 (by simp)).1,
           renderHints_noHash rest (fun x hx => (hlab x (List.mem_cons_of_mem _ hx)).1)⟩
-      have hacc2 := scanAccepts_spaces c.code (c.pad + 1) .idle hacc
+      have hacc2 := scanAccepts_spaces c.code c.pad .idle hacc
       simp only [renderLineS, hhs, List.cons_ne_nil, if_false, normLine]
       have hdw := dropWhile_spaces_word 0 (renderHint h1) (renderHints rest)
         (renderHint_ne h1 (hlab h1 (by simp)).2) (renderHint_nosp h1 (hlab h1 (by simp)).2)
